@@ -384,6 +384,11 @@ pub fn read_shard(path: &Path) -> ShardView {
             return v;
         },
     };
+    parse_shard_bytes(&buf, &mut v);
+    v
+}
+
+pub fn parse_shard_bytes(buf: &[u8], v: &mut ShardView) {
     v.len = buf.len() as u64;
     let r = std::panic::catch_unwind(|| -> Result<(Vec<MDBFileInfo>, Vec<(RH, Vec<(RH, u64)>)>), String> {
         let mut rd = Cursor::new(&buf);
@@ -409,7 +414,6 @@ pub fn read_shard(path: &Path) -> ShardView {
         Ok(Err(e)) => v.err = Some(e),
         Err(p) => v.err = Some(format!("panic: {}", vcore::util::panic_text(&p))),
     }
-    v
 }
 
 pub fn read_shard_dir(dir: &Path) -> Vec<ShardView> {
